@@ -35,9 +35,14 @@ RECORD_CLASSES = {}      # class name -> (file, KRecord)
 GLOBAL_VALUES = {}       # name -> factory(ex) for module-level constants
 MODULE_ATTRS = {}        # (module, attr) -> factory(ex)
 EXTERNALS = {}           # dotted name -> contract qual
+VAL_METHOD_CONTRACTS = {}  # method name on an opaque object -> contract qual
 
 
 def resolve_global(ex, fname, name):
+  if name.endswith('_RE'):
+    pat = regex_pattern(ex.repo, fname, name)
+    if pat is not None:
+      return VPy('regex', pat)
   if name in GLOBAL_VALUES:
     return GLOBAL_VALUES[name](ex)
   if name in RECORD_CLASSES:
@@ -83,8 +88,11 @@ def module_attr(ex, mod, attr, node):
       return VPy('recclass', attr)
     if attr in ex.repo.module_functions(fmap[mod]):
       return VPy('func', f'{fmap[mod]}::{attr}')
-    if attr in ('MODULE_RE', 'IDENTIFIER_RE', 'SELECTOR_RE'):
-      return VPy('regex', attr)
+    if attr.endswith('_RE'):
+      pat = regex_pattern(ex.repo, fmap[mod], attr)
+      if pat is None:
+        raise OutOfSubset(f'cannot resolve regex {mod}.{attr}', node)
+      return VPy('regex', pat)
   if mod == 'os' and attr == 'path':
     return VPy('module', 'os.path')
   if mod == 'tokenize' and attr.isupper():
@@ -106,9 +114,39 @@ def py_attr(ex, obj, attr, node):
   return None
 
 
+SELECTOR_PATTERN = r'^([a-zA-Z_]\w*\.)*[a-zA-Z_]\w*$'
+IDENTIFIER_PATTERN = r'^[a-zA-Z_]\w*$'
+KNOWN_PATTERNS = {'SELECTOR_RE': SELECTOR_PATTERN, 'MODULE_RE': SELECTOR_PATTERN,
+                  'IDENTIFIER_RE': IDENTIFIER_PATTERN}
+
+
+def regex_pattern(repo, fname, name, depth=0):
+  """The pattern text a module-level regex name denotes in the REAL source."""
+  tree = repo.tree[fname]
+  for n in tree.body:
+    if isinstance(n, ast.Assign) and len(n.targets) == 1 and \
+        isinstance(n.targets[0], ast.Name) and n.targets[0].id == name:
+      v = n.value
+      if isinstance(v, ast.Call) and isinstance(v.func, ast.Attribute) and \
+          v.func.attr == 'compile' and v.args and isinstance(v.args[0], ast.Constant):
+        return v.args[0].value
+      if isinstance(v, ast.Attribute) and isinstance(v.value, ast.Name) and depth < 3:
+        fmap = {'selector_map': 'selector_map.py', 'config_parser': 'config_parser.py'}
+        if v.value.id in fmap:
+          return regex_pattern(repo, fmap[v.value.id], v.attr, depth + 1)
+      if isinstance(v, ast.Name) and depth < 3:
+        return regex_pattern(repo, fname, v.id, depth + 1)
+  return None
+
+
+def re_pred(pattern, s):
+  return sym.ufun('re_match$' + pattern, sym.Str, sym.BoolS)(s)
+
+
 def re_match(name, s):
-  """`RE.match(s)` truthiness as an uninterpreted predicate per pattern."""
-  return sym.ufun('re_' + name, sym.Str, sym.BoolS)(s)
+  """`RE.match(s)` truthiness as an uninterpreted predicate PER PATTERN TEXT.
+  `name` is either a pattern text (from the real source) or a known name (specs)."""
+  return re_pred(KNOWN_PATTERNS.get(name, name), s)
 
 
 def val_attr(ex, obj, attr, node):
@@ -162,6 +200,8 @@ def make_record(ex, cname, args, kwargs, node):
   fields = {}
   if any(isinstance(a, tuple) for a in args):
     # cls(*record)
+    if len(args) == 1 and isinstance(args[0][1], VObj):
+      args = [('*', coerce(args[0][1], kind))]
     if len(args) == 1 and isinstance(args[0][1], VRecord):
       src = args[0][1]
       so = getattr(src.kind, 'tuple_order', list(src.kind.fields))
@@ -430,6 +470,8 @@ def call_builtin(ex, name, args, kwargs, node):
     if isinstance(it, list):
       return VTuple([ex.call(fn, [x], {}, node) for x in it])
     return Iter(it.len, lambda j: ex.call(fn, [it.at(j)], {}, node))
+  if name == 'hash':
+    return VObj(sym.ufun('py_hash', sym.Val, sym.Val)(sym.to_val(args[0])))
   if name == 'repr':
     return VStr(sym.ufun('repr_of', sym.Val, sym.Str)(sym.to_val(args[0])))
   r = getattr(ex.world, 'extra_builtin', lambda *a: None)(ex, name, args, kwargs, node)
